@@ -42,7 +42,8 @@ func (c config) String() string {
 }
 
 func (c config) opts() []nodeenrollment.Option {
-	return []nodeenrollment.Option{nodeenrollment.WithCertificateLifetime(time.Duration(c.Life) * unit),
+	// (the periodic caller forwards its "start over" switch, which is off)
+	return []nodeenrollment.Option{nodeenrollment.WithReinitializeRoots(false), nodeenrollment.WithCertificateLifetime(time.Duration(c.Life) * unit),
 		nodeenrollment.WithNotBeforeClockSkew(time.Duration(c.NB) * unit), nodeenrollment.WithNotAfterClockSkew(time.Duration(c.NA) * unit)}
 }
 
@@ -53,6 +54,12 @@ func configs(thorough bool) []config {
 		// short server intervals (with a node that follows its own bound) and
 		// long ones up to span-1 ("intervals shorter than the validity span")
 		rs := []int{1, 2, 3, span - 1}
+		if p == [3]int{8, 0, 0} {
+			// a late but legal server call with a node that still has a bound of
+			// one unit: enrollments fall between the current root's expiry and
+			// the promotion of the (valid) next one
+			rs = []int{1, 2, 3, span - 2, span - 1}
+		}
 		if thorough {
 			rs = []int{1, 2, 3, 5, span / 2, span - 2, span - 1}
 		}
@@ -206,7 +213,8 @@ func (w *world) usable(s *state, t time.Time) (bool, string) {
 func (w *world) dial(s *state) (bool, string) {
 	vclock.Freeze(s.now)
 	var derr error
-	rs, err := harness.Serve(harness.ServerConfig{Storage: s.st.Clone()}, func(addr string) {
+	// (unix sockets: the thorough tier dials millions of times, more than there are ephemeral ports)
+	rs, err := harness.Serve(harness.ServerConfig{Storage: s.st.Clone(), Unix: true}, func(addr string) {
 		conn, e := protocol.Dial(harness.Ctx, s.nd.Clone(), addr)
 		derr = e
 		if conn != nil {
@@ -334,7 +342,14 @@ func (w *world) apply(s *state, label string, r *engine.Report) (*state, string,
 			}
 			r.Branch("rotate:promote")
 		default:
-			return ns, "trust-reset", fmt.Sprintf("at T0+%v (last rotation call %d units ago, span %d) the rotation did not promote the previous next: roots before {cur %s..%s next %s..%s}", s.now.Sub(harness.T0), s.sinceRotate, w.cfg.span(),
+			sig := "trust-reset"
+			if s.sinceRotate >= w.cfg.Life+w.cfg.NA && !pre.Next.NotAfter.AsTime().After(s.now) {
+				// the call is later than lifetime + not-after skew after the one
+				// that minted the next root (which has therefore expired by its
+				// own end), yet sooner than one validity span after it
+				sig = "trust-reset:next-root-expired-within-one-span-of-its-minting"
+			}
+			return ns, sig, fmt.Sprintf("at T0+%v (last rotation call %d units ago, span %d) the rotation did not promote the previous next: roots before {cur %s..%s next %s..%s}", s.now.Sub(harness.T0), s.sinceRotate, w.cfg.span(),
 				rel(pre.Current.NotBefore.AsTime(), s.now), rel(pre.Current.NotAfter.AsTime(), s.now), rel(pre.Next.NotBefore.AsTime(), s.now), rel(pre.Next.NotAfter.AsTime(), s.now))
 		}
 		ns.sinceRotate, ns.rotatedNow = 0, true
@@ -502,7 +517,7 @@ func init() {
 	engine.Register(&engine.CheckDef{
 		ID:    "C09",
 		Level: "model_checking",
-		Rule: "BFS over {tick one grid unit (1h), rotate roots, a rotation call whose first / second / third storage operation fails, node (re-)enrolls (first by enrollment, then by RotateNodeCredentials)} with a monitor that disables tick whenever the server's interval R or the node's interval E = floor((span-R)/2 - |not-before skew|) would be exceeded, for (lifetime, not-before, not-after) in {(8,0,0),(8,-1,1),(16,-2,0)} units x R in {1,2,3,span-1} (thorough: also 5, span/2, span-2; where E < 1 only the rotation clause is explored), up to a horizon of 2 (thorough 5) spans; at every reachable grid state reached by time passing (thorough: at every state): a real Dial through the real listener under the virtual clock, and at every state the real ClientConfigs/ServerConfig validity filters now and at every end-point of a root or chain window +-1ns inside the next grid interval; every rotation must be a no-op or a promotion of a valid next; " +
+		Rule: "BFS over {tick one grid unit (1h), rotate roots, a rotation call whose first / second / third storage operation fails, node (re-)enrolls (first by enrollment, then by RotateNodeCredentials)} with a monitor that disables tick whenever the server's interval R or the node's interval E = floor((span-R)/2 - |not-before skew|) would be exceeded, for (lifetime, not-before, not-after) in {(8,0,0),(8,-1,1),(16,-2,0)} units x R in {1,2,3,span-1} (and span-2 for the first; thorough: 5, span/2, span-2 for all; where E < 1 only the rotation clause is explored), up to a horizon of 2 (thorough 5) spans; at every reachable grid state reached by time passing (thorough: at every state): a real Dial through the real listener under the virtual clock, and at every state the real ClientConfigs/ServerConfig validity filters now and at every end-point of a root or chain window +-1ns inside the next grid interval; every rotation must be a no-op or a promotion of a valid next; " +
 			"distinct_nontrivial = canonical states (validity instants relative to now, chain-to-root membership, cadence counters)",
 		Assumptions: []string{"the space is bounded by the horizon, not by a fixpoint (half-life shifts create new relative offsets)", "'randomized with jitter' and 'several orders of magnitude' are sampling and not claimed; the code is scale-free except for nanosecond truncation of /2 and the one-second granularity of certificate times, which is why the grid unit is one hour"},
 		Shards:      func(c *engine.Ctx) int { return 16 },
